@@ -91,6 +91,10 @@ func (sw *subWatch) open(height uint32) *simSub {
 		if r.err != nil {
 			w.rc.Probe("subscribe_refused")
 			w.rc.Logf("t=%s subscribe(%d) refused: %v", w.clock(), height, r.err)
+			if height <= ft && w.parkedAt() != "cfheaders.afterStoreWrite" && sw.check {
+				w.rc.Failf("backlog-refused-at-or-below-committed-tip", nil,
+					"Subscribe(%d) was refused (%v) although the committed filter tip is %d (parked at %q)", height, r.err, ft, w.parkedAt())
+			}
 			return nil
 		}
 		if height > ft {
@@ -103,6 +107,43 @@ func (sw *subWatch) open(height uint32) *simSub {
 		s := &simSub{idx: len(sw.subs), sub: r.s, height: height, held: held, midChange: w.parkedAt() != ""}
 		sw.subs = append(sw.subs, s)
 		w.rc.Logf("t=%s subscribe(%d) -> sub %d", w.clock(), height, s.idx)
+		// The backlog, which is what the subscription holds at this
+		// (quiescent or parked) instant, must be exactly the committed
+		// blocks above the height: heights height+1..committed filter tip,
+		// each with the stored header. (Not judged while a filter-header
+		// batch is stored but not yet announced: its blocks then arrive as
+		// events.)
+		if height != 0 && w.parkedAt() != "cfheaders.afterStoreWrite" {
+			got := 0
+			for {
+				var n blockntfns.BlockNtfn
+				select {
+				case n = <-s.sub.Notifications:
+				default:
+				}
+				if n == nil {
+					break
+				}
+				got++
+				want := height + uint32(got)
+				if _, isConn := n.(*blockntfns.Connected); !isConn || n.Height() != want {
+					sw.fail("backlog-not-the-committed-blocks", map[string]string{"how": "order"},
+						"sub %d (from height %d, committed filter tip %d): backlog entry %d is %T for height %d", s.idx, height, ft, got, n, n.Height())
+				} else if hdr, err := w.cs.BlockHeaders.FetchHeaderByHeight(want); err != nil || hdr.BlockHash() != hashOf(n.Header()) {
+					hh := n.Header()
+					sw.fail("backlog-not-the-committed-blocks", map[string]string{"how": "header"},
+						"sub %d (from height %d): backlog entry for height %d carries %s, the store has another header there (%v)", s.idx, height, want, short(hh.BlockHash()), err)
+				}
+				sw.replay(s, n)
+				synctest.Wait()
+			}
+			if uint32(got) != ft-height {
+				sw.fail("backlog-not-the-committed-blocks", map[string]string{"how": "length"},
+					"sub %d: Subscribe(%d) with the committed filter tip at %d delivered a backlog of %d blocks, expected %d (parked at %q)",
+					s.idx, height, ft, got, ft-height, w.parkedAt())
+			}
+			w.rc.Probe("backlog_checked")
+		}
 		return s
 	default:
 		if sw.check {
@@ -190,6 +231,8 @@ func (sw *subWatch) replay(s *simSub, n blockntfns.BlockNtfn) {
 		}
 	}
 }
+
+func hashOf(h wire.BlockHeader) chainhash.Hash { return h.BlockHash() }
 
 // removed checks, for the change of the stored block-header chain between two
 // completed observations, that every header the change removed was announced
